@@ -44,6 +44,7 @@ func checkC10Loop(c C05Case, o *vcore.Obs) error {
 	}
 	appCommits := 0
 	commitsBy := map[string]int{}
+	commitIDs := map[string][]int64{} // instance -> LMDB transaction ids of its application's commits
 	for oi, op := range c.Ops {
 		before := lm.LastTxnID(f.nodes[op.Inst%c.N].Env.Env)
 		if err := f.exec(oi, op); err != nil {
@@ -52,6 +53,7 @@ func checkC10Loop(c C05Case, o *vcore.Obs) error {
 		if op.Kind == "app" && lm.LastTxnID(f.nodes[op.Inst%c.N].Env.Env) != before {
 			appCommits++
 			commitsBy[f.nodes[op.Inst%c.N].Name]++
+			commitIDs[f.nodes[op.Inst%c.N].Name] = append(commitIDs[f.nodes[op.Inst%c.N].Name], lm.LastTxnID(f.nodes[op.Inst%c.N].Env.Env))
 		}
 	}
 	// ---- write-free phase
@@ -97,6 +99,34 @@ func checkC10Loop(c C05Case, o *vcore.Obs) error {
 		}
 	}
 	_ = total
+	// ... more precisely: every snapshot states the LMDB transaction its image was taken at; between the
+	// images of two consecutive uploads of an instance (before the first one: since the empty start) its
+	// application must have committed at least once - otherwise the second one is an echo of the first
+	for _, nd := range f.nodes {
+		prev := int64(0)
+		k := 0
+		for _, op := range f.b.Log() {
+			if op.Kind != "store" || !op.Applied || op.By != nd.Name {
+				continue
+			}
+			flat, err := DecodeBlob(op.Data)
+			if err != nil {
+				return fmt.Errorf("%s uploaded %s, which the reference codec cannot decode: %v", nd.Name, op.Name, err)
+			}
+			at := flat.Meta.LmdbTxnID
+			justified := false
+			for _, id := range commitIDs[nd.Name] {
+				if id > prev && id <= at {
+					justified = true
+				}
+			}
+			if !justified {
+				return fmt.Errorf("%s uploaded %s (upload %d, image of LMDB transaction %d) although its application committed nothing since the image of its previous upload (transaction %d; application commits: %v): an instance uploads only after a local application change (echo of its own data)", nd.Name, op.Name, k+1, at, prev, commitIDs[nd.Name])
+			}
+			prev = at
+			k++
+		}
+	}
 	// and everybody holds the same data now
 	var ref map[string]map[string]Ver
 	for i := range f.nodes {
@@ -181,7 +211,7 @@ func genC10Loop(t *rapid.T) C05Case {
 
 func TestC10Loop(t *testing.T) {
 	vcore.Run(t, vcore.Config{Property: "C10", Inflight: true,
-		Rule: "2-3 real sync loops under the scheduler with interleaved application commits, then a write-free phase of 2N+2 rounds (two loop iterations per instance and round): every instance uploads at most twice more (one upload in flight + one pending), no upload at all from the third round on, uploads of an instance <= its recorded application commits (instances start empty), identical content at the end; non-trivial = >=2 instances wrote and data was exchanged"},
+		Rule: "2-3 real sync loops under the scheduler with interleaved application commits, then a write-free phase of 2N+2 rounds (two loop iterations per instance and round): every instance uploads at most twice more (one upload in flight + one pending), no upload at all from the third round on, uploads of an instance <= its recorded application commits (instances start empty), every upload's image transaction (snapshot meta) is preceded by an application commit newer than the previous upload's image, identical content at the end; non-trivial = >=2 instances wrote and data was exchanged"},
 		genC10Loop, checkC10Loop)
 }
 
@@ -197,8 +227,11 @@ type RunOnceCase struct {
 	OwnBlob   bool `json:"own_blob"`
 	LocalData bool `json:"local_data"`
 	LoadFails int  `json:"load_fails"`
-	Corrupt   int  `json:"corrupt"` // 0 none, 1 newest of peer 1 is undecodable, 2 the only snapshot of the last peer is
-	Late      bool `json:"late"`    // a new peer appears after start-up (must not be waited for)
+	Corrupt   int  `json:"corrupt"` // 0 none, 1 newest of peer 1 is undecodable, 2 the only snapshot of the last peer is, 3 every snapshot of every peer is
+	// Vanish: snapshots listed at start-up are removed (cleaned by somebody else) right after the
+	// initial listing: 1 = those of the last peer, 2 = those of every peer
+	Vanish int  `json:"vanish,omitempty"`
+	Late   bool `json:"late"` // a new peer appears after start-up (must not be waited for)
 }
 
 func checkRunOnce(c RunOnceCase, o *vcore.Obs) error {
@@ -211,6 +244,7 @@ func checkRunOnce(c RunOnceCase, o *vcore.Obs) error {
 	h := b.Handle("a")
 	clock := time.Date(2026, 4, 1, 0, 0, 0, 0, time.UTC)
 	expect := map[string][]byte{} // key -> value that must be present at exit
+	var vanishing []string
 	mk := func(inst string, key string, val string) []byte {
 		ts := uint64(1_500_000_000_000_000_000)
 		return peerBlobRaw(inst, []model.KV{{Key: []byte(key), Val: model.ValOf([]byte(val)), TS: ts + uint64(len(expect))}})
@@ -221,12 +255,19 @@ func checkRunOnce(c RunOnceCase, o *vcore.Obs) error {
 			clock = clock.Add(time.Second)
 			key := fmt.Sprintf("key-%s", inst)
 			val := fmt.Sprintf("%s-v%d", inst, k)
-			corruptThis := (c.Corrupt == 1 && p == 1 && k == c.PerPeer-1) || (c.Corrupt == 2 && p == c.Peers && c.PerPeer == 1)
+			corruptThis := (c.Corrupt == 1 && p == 1 && k == c.PerPeer-1) || (c.Corrupt == 2 && p == c.Peers && c.PerPeer == 1) || c.Corrupt == 3
+			name := snapshot.Name(DBName, inst, "GX", clock)
+			if c.Vanish == 2 || (c.Vanish == 1 && p == c.Peers) {
+				vanishing = append(vanishing, name)
+			}
 			if corruptThis {
-				b.Put(snapshot.Name(DBName, inst, "GX", clock), []byte("not gzip"))
+				b.Put(name, []byte("not gzip"))
 				continue
 			}
-			b.Put(snapshot.Name(DBName, inst, "GX", clock), mk(inst, key, val))
+			b.Put(name, mk(inst, key, val))
+			if c.Vanish == 2 || (c.Vanish == 1 && p == c.Peers) {
+				continue // may or may not have been downloaded before it vanished: nothing is required
+			}
 			expect[key] = []byte(val) // the newest decodable one wins (later k overwrites)
 		}
 	}
@@ -243,9 +284,9 @@ func checkRunOnce(c RunOnceCase, o *vcore.Obs) error {
 			return err
 		}
 	}
-	if c.LoadFails > 0 {
+	if c.LoadFails > 0 || len(vanishing) > 0 {
 		var fs []string
-		for i := 0; i < c.LoadFails; i++ {
+		for i := 0; i < max(c.LoadFails, 2); i++ {
 			fs = append(fs, fault.Fail)
 		}
 		h.SetPlan("load", fs)
@@ -258,6 +299,9 @@ func checkRunOnce(c RunOnceCase, o *vcore.Obs) error {
 		return err
 	}
 	lateDone := false
+	for _, n := range vanishing {
+		b.Remove(n) // the loop is parked at its first yield, right after the initial listing
+	}
 	check := func(where string, mustHaveAll bool) error {
 		dump, err := lm.DumpEnv(env.Env)
 		if err != nil {
@@ -299,6 +343,9 @@ func checkRunOnce(c RunOnceCase, o *vcore.Obs) error {
 			}
 			o.NonTrivial(c.Peers >= 2 && (c.LoadFails > 0 || c.Corrupt > 0 || c.OwnBlob))
 			o.ClassIf(c.Corrupt > 0, "corrupt-at-startup")
+			o.ClassIf(c.Corrupt == 3 && c.Peers > 0, "every-peer-snapshot-undecodable")
+			o.ClassIf(len(vanishing) > 0, "snapshots-vanish-after-the-initial-listing")
+			o.ClassIf((c.Corrupt == 3 || c.Vanish == 2) && c.Peers > 0 && !c.OwnBlob && !c.LocalData && !c.Late, "nothing-usable-left-in-the-bucket")
 			o.ClassIf(c.LoadFails > 0, "load-faults")
 			o.ClassIf(c.OwnBlob, "own-snapshot-at-startup")
 			o.ClassIf(c.Late, "late-peer")
@@ -330,11 +377,17 @@ func peerBlobRaw(inst string, kvs []model.KV) []byte {
 
 func TestC16RunOnce(t *testing.T) {
 	vcore.Run(t, vcore.Config{Property: "C16", Inflight: true,
-		Rule: "real sync loop with only_once under the scheduler: 0-4 peers with 1-3 snapshots each at start-up (optionally an undecodable newest one, or an undecodable only one), optional own snapshot, optional local data, 0-3 failing Loads, optionally a new instance appearing after start-up; Sync must return nil by itself, and at that moment the LMDB holds the newest decodable start-up snapshot of every instance; non-trivial = >=2 peers and one of {load faults, corrupt blob, own snapshot}"},
+		Rule: "real sync loop with only_once under the scheduler: 0-4 peers with 1-3 snapshots each at start-up (optionally an undecodable newest one, an undecodable only one, or nothing but undecodable ones; optionally the snapshots of one or of all peers vanish right after the initial listing), optional own snapshot, optional local data, 0-3 failing Loads, optionally a new instance appearing after start-up; Sync must return nil by itself, and at that moment the LMDB holds the newest decodable start-up snapshot of every instance; non-trivial = >=2 peers and one of {load faults, corrupt blob, own snapshot}"},
 		func(t *rapid.T) RunOnceCase {
-			return RunOnceCase{Native: rapid.Bool().Draw(t, "native"), Peers: rapid.IntRange(0, 4).Draw(t, "peers"), PerPeer: rapid.IntRange(1, 3).Draw(t, "per"),
+			c := RunOnceCase{Native: rapid.Bool().Draw(t, "native"), Peers: rapid.IntRange(0, 4).Draw(t, "peers"), PerPeer: rapid.IntRange(1, 3).Draw(t, "per"),
 				OwnBlob: rapid.Bool().Draw(t, "own"), LocalData: rapid.Bool().Draw(t, "local"), LoadFails: rapid.SampledFrom([]int{0, 0, 1, 3}).Draw(t, "lf"),
-				Corrupt: rapid.SampledFrom([]int{0, 0, 1, 2}).Draw(t, "corrupt"), Late: rapid.Bool().Draw(t, "late")}
+				Corrupt: rapid.SampledFrom([]int{0, 0, 1, 2, 3}).Draw(t, "corrupt"), Late: rapid.IntRange(0, 2).Draw(t, "late") == 0,
+				Vanish: rapid.SampledFrom([]int{0, 0, 0, 1, 2}).Draw(t, "vanish")}
+			if rapid.IntRange(0, 3).Draw(t, "bare") == 0 {
+				// a restore-style job: empty LMDB, nothing of its own in the bucket, nobody else publishing
+				c.OwnBlob, c.LocalData, c.Late = false, false, false
+			}
+			return c
 		}, checkRunOnce)
 }
 
